@@ -23,7 +23,7 @@ cmds = " ; ".join(meta.get("commands_run", []))
 dest = sys.argv[3] if len(sys.argv) > 3 else None
 if not dest:
     m = re.search(r"cp out/%s/demo\.rs (\S+)" % var, cmds)
-    dest = m.group(1) if m else f"tests/seeded_demo_{var}.rs"
+    dest = m.group(1).rstrip(".,;)") if m else f"tests/seeded_demo_{var}.rs"
 name = os.path.basename(dest)[:-3]
 pkg = "-p signal-hook-registry" if dest.startswith("signal-hook-registry") else ""
 extra = sys.argv[4] if len(sys.argv) > 4 else ("-- --test-threads=1" if "--test-threads=1" in cmds else "")
